@@ -13,8 +13,8 @@ def strip(line):
 
 
 def run(ctx):
-    C.prepare(ctx, ['C12', 'C12_mvp60', 'C12_mvp61', 'C12_mvp62', 'C12_mvp63', 'C12_mvp80', 'C01_mvp60', 'C01_mvp61', 'C01_mvp62', 'C01_mvp4', 'C05_mvp4', 'C01_mvp5', 'C05_mvp5'], need_gen_oracle=False)
-    ok_mvp, out = C.ensure_oracle(ctx, 'mvp', ['theories/Mvp/Mvp12.vo', 'theories/Mvp/Mvp3.vo', 'theories/Mvp/Mvp4.vo', 'theories/Mvp/Mvp5.vo', 'theories/Mvp/Mvp60.vo', 'theories/Mvp/Mvp61.vo', 'theories/Mvp/Mvp62.vo', 'theories/Mvp/Mvp63.vo', 'theories/Mvp/Mvp80.vo', 'theories/Isa/Refine.vo'], ['Mvp', 'Isa', 'Gen', 'Base', 'Comp'])
+    C.prepare(ctx, ['C12', 'C12_mvp60', 'C12_mvp61', 'C12_mvp62', 'C12_mvp63', 'C12_mvp70', 'C12_mvp80', 'C01_mvp60', 'C01_mvp61', 'C01_mvp62', 'C01_mvp4', 'C05_mvp4', 'C01_mvp5', 'C05_mvp5'], need_gen_oracle=False)
+    ok_mvp, out = C.ensure_oracle(ctx, 'mvp', ['theories/Mvp/Mvp12.vo', 'theories/Mvp/Mvp3.vo', 'theories/Mvp/Mvp4.vo', 'theories/Mvp/Mvp5.vo', 'theories/Mvp/Mvp60.vo', 'theories/Mvp/Mvp61.vo', 'theories/Mvp/Mvp62.vo', 'theories/Mvp/Mvp63.vo', 'theories/Mvp/Mvp70.vo', 'theories/Mvp/Mvp71.vo', 'theories/Mvp/Mvp80.vo', 'theories/Isa/Refine.vo'], ['Mvp', 'Isa', 'Gen', 'Base', 'Comp'])
     if not ok_mvp:
         ctx.broken.append({'file': 'coq/theories/Mvp/Mvp12.v', 'line': None, 'lemma': 'extraction of the MVP-1/2 cycle model (depends on the regenerated opcode model)', 'error': out[-1500:]})
     cells = syscheck.load_domains()
@@ -80,9 +80,9 @@ def run(ctx):
         # result can depend on Go's map iteration order (the model's ghost flag os=1) and runs that exhaust the
         # tick budget are not compared here (bin/tie_m60.py compares those too: all sampled orders, state at the budget).
         tie60, n60, os60, bud60 = [], 0, 0, 0
-        step60 = 4 if ctx.tier == 'quick' else 1
+        step60 = 6 if ctx.tier == 'quick' else 1
         sel = [k for k in range(0, len(allp), step60) if spec[k][0] == 'ok']
-        for v6, par in [(v6, par) for v6 in ('6.0', '6.1', '6.2', '6.3', '8.0') for par in (1, 2, 3, 4)]:
+        for v6, par in [(v6, par) for v6 in ('6.0', '6.1', '6.2', '6.3', '7.0', '7.1', '8.0') for par in (1, 2, 3, 4)]:
             cap6 = 40000 if ctx.tier == 'quick' else 10 ** 9
             impl6, il6, raw6 = S.run_impl(ctx, [(allp[k], v6, par, min(cap6, S.budget_for(spec[k][1]))) for k in sel], 'c12-i%sx%d' % (v6, par))
             cmpk, mlines = [], []
@@ -184,4 +184,4 @@ def run(ctx):
     return C.finish(ctx, 'proof', cov,
                     ['MVP-1/2 theorems are about the faithful model Mvp/Mvp12.v, tied to the code by exact equality of the returned triple on every generated program',
                      'MVP-3 (Props/C05_mvp3.v: cost3) and MVP-4 / MVP-5 (Props/C01_mvp4.v, C05_mvp4.v, C01_mvp5.v, C05_mvp5.v: the count is a function of the program and the path / the (pc, address) events, at least one per executed instruction, independent of operand values; register-only programs and programs whose stores hit in L1D) have theorems about their faithful models; MVP-6.0 (Props/C12_mvp60.v: count >= 1, issue width two at any number of units; faithful model tied by exact equality at 1..4 units); for MVP-6.1..8 no theorem about the cycle count is claimed: bounds and value independence are checked per run'],
-                    'make -C /verif/coq theories/Props/C12.vo theories/Props/C12_mvp60.vo theories/Props/C12_mvp61.vo theories/Props/C12_mvp62.vo theories/Props/C12_mvp63.vo theories/Props/C12_mvp80.vo theories/Props/C01_mvp60.vo theories/Props/C01_mvp61.vo theories/Props/C01_mvp62.vo theories/Props/C01_mvp4.vo theories/Props/C05_mvp4.vo theories/Props/C01_mvp5.vo theories/Props/C05_mvp5.vo (coqc 8.16.1)')
+                    'make -C /verif/coq theories/Props/C12.vo theories/Props/C12_mvp60.vo theories/Props/C12_mvp61.vo theories/Props/C12_mvp62.vo theories/Props/C12_mvp63.vo theories/Props/C12_mvp70.vo theories/Props/C12_mvp80.vo theories/Props/C01_mvp60.vo theories/Props/C01_mvp61.vo theories/Props/C01_mvp62.vo theories/Props/C01_mvp4.vo theories/Props/C05_mvp4.vo theories/Props/C01_mvp5.vo theories/Props/C05_mvp5.vo (coqc 8.16.1)')
